@@ -18,7 +18,7 @@ BOUNDS = {
     "quick": {"entries per input": "2 + 2 (location ids, lead times, times), also 2 + 1", "other dims": "singletons"},
     "thorough": {"entries per input": "3 + 3 and 3 + 2", "other dims": "singletons"},
 }
-ASSUMPTIONS = ["location ids (0..10^7) and times are integers; lead times are reals or NaN", "times lie in a 3-day window (calendar model forks per day)"]
+ASSUMPTIONS = ["text_rows: no two rows share (time, lead time, location); rows of one location carry the same latitude", "location ids (0..10^7) and times are integers; lead times are reals or NaN", "times lie in a 3-day window (calendar model forks per day)"]
 STUBS = ["inputs are in-memory verif.input.Input subclasses (text rows keyed by coordinates: C09)"]
 
 
@@ -153,10 +153,64 @@ def h_permute(dim, n):
     return fn
 
 
+def h_text_rows(rows):
+    """Rows of a text file are keyed by their coordinates: any row order gives
+    the same dataset (Text reader + Data), as long as no two rows share a key."""
+    import itertools
+
+    def fn(S):
+        from harness import c09
+        inp = load.modules["verif.input"]
+        data = load.modules["verif.data"]
+        f = load.modules["verif.field"]
+        ax = load.modules["verif.axis"]
+        S.messages_may_format_numbers()
+        header = ["unixtime", "leadtime", "location", "lat", "fcst", "extra"]
+        cells = [{col: c09.make_cell(S, col, r) for col in header} for r in range(rows)]
+        # distinct (time, leadtime, location) keys
+        for a in range(rows):
+            for b in range(a + 1, rows):
+                S.assume(S.not_(S.and_(*[cells[a][c][1] == cells[b][c][1] for c in ("unixtime", "leadtime", "location")])))
+                # consistent metadata: rows of one location carry the same latitude
+                S.assume(S.implies(cells[a]["location"][1] == cells[b]["location"][1], cells[a]["lat"][1] == cells[b]["lat"][1]))
+        perms = list(itertools.permutations(range(rows)))
+        pi = perms[1 + S.choose("perm", len(perms) - 1)]
+
+        def read(order):
+            import os
+            import tempfile
+            if S.symbolic:
+                lines = [c09.SymLine(header)] + [c09.SymLine([cells[r][col][0] for col in header]) for r in order]
+                load.rebind_global(inp, "open", lambda *a, **k: c09.FakeFile(lines))
+                return inp.Text("/in-memory/rows.txt")
+            fd, path = tempfile.mkstemp(suffix=".txt", prefix="c02-")
+            try:
+                with os.fdopen(fd, "w") as fo:
+                    fo.write(" ".join(header) + "\n")
+                    for r in order:
+                        fo.write(" ".join(cells[r][col][0] for col in header) + "\n")
+                return inp.Text(path)
+            finally:
+                os.unlink(path)
+        D1 = data.Data([read(range(rows))])
+        D2 = data.Data([read(pi)])
+        S.prove("same-dimensions", [float(x) for x in []] == [] and len(D1.times) == len(D2.times) and len(D1.leadtimes) == len(D2.leadtimes)
+                and [l.id for l in D1.locations] == [l.id for l in D2.locations] if not S.symbolic else
+                (len(D1.times) == len(D2.times) and len(D1.leadtimes) == len(D2.leadtimes) and len(D1.locations) == len(D2.locations)))
+        for fld, nm in ((f.Fcst(), "fcst"), (f.Other("extra"), "extra")):
+            a1 = D1.get_scores(fld, 0, ax.All(), None)
+            a2 = D2.get_scores(fld, 0, ax.All(), None)
+            S.observe(nm, a1)
+            S.prove("row-order-does-not-matter", S.same_arrays(a1, a2), detail=nm)
+        S.prove("location-metadata-follows-the-id",
+                S.all(S.same(x.lat, y.lat) for x, y in zip(D1.locations, D2.locations)))
+    return fn
+
+
 def harnesses(tier):
     thorough = tier == "thorough"
     p, q = (3, 3) if thorough else (2, 2)
-    hs = []
+    hs = [Harness("text_rows", h_text_rows(3 if thorough else 2), "permuted rows of a text file give the same dataset")]
     for dim in ("location", "leadtime", "time"):
         hs.append(Harness("match.%s" % dim, h_match(dim, p, q), "symbolic %s coordinates, %d + %d entries" % (dim, p, q)))
         hs.append(Harness("match.%s.uneven" % dim, h_match(dim, p, q - 1), "symbolic %s coordinates, %d + %d entries" % (dim, p, q - 1)))
